@@ -557,6 +557,25 @@ class Interp:
                             raise Thrown('null pointer dereference')
                         if isinstance(o, Obj):
                             return ('field', o, r['name'], n)
+        if k == 'CXXOperatorCallExpr' and callee_of(n)[1] == 'operator[]':
+            a_ = call_args(n)
+            if len(a_) == 2:
+                c_ = self.expr(a_[0], env)
+                if isinstance(c_, dict):
+                    # std::map::operator[] used as an lvalue: the slot of the key
+                    k_ = self.expr(a_[1], env)
+                    k_ = k_[1] if isinstance(k_, tuple) and k_[:1] == ('str',) else (k_.lo if isinstance(k_, IV) and k_.concrete() else None)
+                    if k_ is None:
+                        raise NeedSplit(None, 'map key not concrete at %s' % pos(n))
+                    return ('mapslot', c_, k_)
+                if isinstance(c_, Vec):
+                    i_ = self.expr(a_[1], env)
+                    if not (isinstance(i_, IV) and i_.concrete()):
+                        raise NeedSplit(None, 'vector index not concrete at %s' % pos(n))
+                    if not 0 <= i_.lo < len(c_.items):
+                        self.ub_event('vector-index-out-of-range', n)
+                        raise Thrown('out-of-range vector access')
+                    return ('vecslot', c_, i_.lo)
         if k in ('CXXOperatorCallExpr', 'CXXMemberCallExpr', 'CallExpr'):
             return ('val', self.call(n, env))
         if k == 'ArraySubscriptExpr':
@@ -591,6 +610,10 @@ class Interp:
             return o.fields[name]
         if lv[0] == 'obj':
             return lv[1]
+        if lv[0] == 'mapslot':
+            return lv[1].setdefault(lv[2], None)
+        if lv[0] == 'vecslot':
+            return lv[1].items[lv[2]]
         raise AnalysisBroken('load %r' % (lv,))
 
     def store(self, lv, v, env):
@@ -598,6 +621,10 @@ class Interp:
             env['locals'][lv[1]] = v
         elif lv[0] == 'field':
             lv[1].fields[lv[2]] = v
+        elif lv[0] == 'mapslot':
+            lv[1][lv[2]] = v
+        elif lv[0] == 'vecslot':
+            lv[1].items[lv[2]] = v
         else:
             raise AnalysisBroken('store %r' % (lv,))
 
@@ -1233,6 +1260,9 @@ class Interp:
                     return None
                 raise AnalysisBroken('unmodelled vector operation %s at %s' % (name, pos(n)))
             if isinstance(o, dict):
+                if name == 'clear':
+                    o.clear()
+                    return None
                 if name in ('find', 'end', 'cend'):
                     ends = self.__dict__.setdefault('_map_ends', {})
                     end = ends.setdefault(id(o), Obj('map-iterator', {}, 'end()'))
